@@ -1018,7 +1018,7 @@ pub fn get_aggregate_value(
                 return String::new();
             }
 
-            let n = raw_output_buffer.len();
+            let n = count_values(raw_output_buffer, &buffer_key);
             let variance = get_variance(raw_output_buffer, &buffer_key, n);
             let result = variance.sqrt();
 
@@ -1029,8 +1029,8 @@ pub fn get_aggregate_value(
                 return String::new();
             }
 
-            let size = raw_output_buffer.len();
-            let n = if size == 1 { 1 } else { size - 1 };
+            let size = count_values(raw_output_buffer, &buffer_key);
+            let n = if size <= 1 { 1 } else { size - 1 };
             let variance = get_variance(raw_output_buffer, &buffer_key, n);
             let result = variance.sqrt();
 
@@ -1041,7 +1041,7 @@ pub fn get_aggregate_value(
                 return String::new();
             }
 
-            let n = raw_output_buffer.len();
+            let n = count_values(raw_output_buffer, &buffer_key);
             let variance = get_variance(raw_output_buffer, &buffer_key, n);
 
             variance.to_string()
@@ -1051,8 +1051,8 @@ pub fn get_aggregate_value(
                 return String::new();
             }
 
-            let size = raw_output_buffer.len();
-            let n = if size == 1 { 1 } else { size - 1 };
+            let size = count_values(raw_output_buffer, &buffer_key);
+            let n = if size <= 1 { 1 } else { size - 1 };
             let variance = get_variance(raw_output_buffer, &buffer_key, n);
 
             variance.to_string()
@@ -1092,9 +1092,28 @@ fn get_variance(
 /// If the value can't be parsed as usize, it will be ignored.
 fn get_mean(raw_output_buffer: &Vec<HashMap<String, String>>, buffer_key: &String) -> f64 {
     let sum = get_buffer_sum(raw_output_buffer, buffer_key);
-    let size = raw_output_buffer.len();
+    let size = count_values(raw_output_buffer, buffer_key);
+
+    if size == 0 {
+        return 0.0;
+    }
 
     sum as f64 / size as f64
+}
+
+/// The number of entries that have a value under the buffer key: the statistics are taken over
+/// these. An entry without one (an unreadable file has no line count) is no zero.
+fn count_values(raw_output_buffer: &Vec<HashMap<String, String>>, buffer_key: &String) -> usize {
+    let mut count = 0;
+    for value in raw_output_buffer {
+        if let Some(value) = value.get(buffer_key) {
+            if value.parse::<usize>().is_ok() {
+                count += 1;
+            }
+        }
+    }
+
+    count
 }
 
 /// Get the sum of all values in the buffer, based on the buffer key.
